@@ -177,8 +177,8 @@ def run(prog, rep, tier):
             else:
                 r1.fail(root2, "family-complete-without-pending-check", "%s reports a family complete without checking that no other configured helper still awaits End-of-RIB for it: "
                         "the family is released early (and a second time when that helper's End-of-RIB arrives)" % short(root2), v2.loc(bi))
-    if n_fc < 2:
-        r1.unanalysable("FamilyDeferralComplete constructions found: %d (want >= 2)" % n_fc)
+    if n_fc < 1:
+        r1.unanalysable("FamilyDeferralComplete constructions found: %d (want >= 1)" % n_fc)
     if not any((a.cond(r"input") == frozenset({"TimerExpired"})) for a in arms):
         r1.fail(fv.name, "no-timer-arm", "RestartingDeferral::process has no TimerExpired arm", fv.loc())
     if n_timer == 0:
@@ -191,8 +191,8 @@ def run(prog, rep, tier):
         v = s["rv"]["v"]
         empt = None
         for g, labels, how in flat_guards(nv, bi):
-            if g[0] == "call" and g[1].endswith("::is_empty") and "pending" in expr_vars(g):
-                empt = labels == {"true"}
+            if g[0] == "call" and g[1].endswith("::is_empty") and "HashMap" in (g[1] + str(g[4]) + str(g[5])):
+                empt = labels == {"true"}       # the map of awaited peers, whatever the local is called
         outs = {s2["rv"]["v"] for b2, si2, s2 in nv.aggregates(re.compile(r"rustybgpd::gr::RestartingOutput")) if nv.edge_guarded(b2, []) or True}
         seen[v] = empt
     if seen.get("Completed") is True and seen.get("AwaitingStart") in (False, None) and "AwaitingStart" in seen:
